@@ -263,6 +263,16 @@ def pool_snapshot(pool):
 
 
 # ----------------------------------------------------------------------------- operations
+def _subdistribution(r, d):
+    """marginal on a selector that the CALLER keeps: a list (sometimes with negative, i.e. from-the-end, positions, which
+    plain indexing accepts) that must read the same after the call"""
+    n = d.get_number_of_subsystems()
+    sel = r.sample(range(n), r.randint(1, n))
+    if r.random() < 0.4:
+        sel = [q - n if r.random() < 0.6 else q for q in sel]
+    return d.subdistribution(sel)  # the argument snapshot of the hook covers the selector
+
+
 def catalogue():
     """name -> (operand kinds, function(rng, *operands) -> result, result kind or None)"""
     from orquestra.quantum import wavefunction as WF
@@ -406,8 +416,7 @@ def catalogue():
         "meas.get_expectation_values": (["meas", "ising"], lambda r, m, o: m.get_expectation_values(o, r.random() < 0.5), None),
         "get_parities_from_measurements": (["meas", "ising"], lambda r, m, o: get_parities_from_measurements(m, o), None),
         "meas.save": (["meas"], save_meas, None),
-        "dist.subdistribution": (["dist"], lambda r, d: d.subdistribution(
-            r.sample(range(d.get_number_of_subsystems()), r.randint(1, d.get_number_of_subsystems()))), "dist"),
+        "dist.subdistribution": (["dist"], lambda r, d: _subdistribution(r, d), "dist"),
         "compute_mmd": (["dist", "dist"], lambda r, a, b: compute_mmd(a, b, {"sigma": 1.0}), None),
         "clipped_nll": (["dist", "dist"], lambda r, a, b: compute_clipped_negative_log_likelihood(a, b, {"epsilon": 1e-6}), None),
         "jsd": (["dist", "dist"], lambda r, a, b: compute_jensen_shannon_divergence(a, b, {"epsilon": 1e-6}), None),
